@@ -176,10 +176,11 @@ def minimise_and_write(pid, tier, engine, result, v, known):
         out = {"script": result["script"], "violation": v, "runs": 0, "note": "shrink failed: %s" % e}
     if F.match(known, pid, out["script"], out["violation"]):
         return None
-    os.makedirs(os.path.join(ROOT, "replays"), exist_ok=True)
+    out_root = os.environ.get("VERIF_OUT", ROOT)
+    os.makedirs(os.path.join(out_root, "replays"), exist_ok=True)
     n = 0
     while True:
-        path = os.path.join(ROOT, "replays", "%s-%d-%d.json" % (pid, result["seed"] % 10**9, n))
+        path = os.path.join(out_root, "replays", "%s-%d-%d.json" % (pid, result["seed"] % 10**9, n))
         if not os.path.exists(path):
             break
         n += 1
